@@ -1611,6 +1611,9 @@ Proof.
   rewrite rdin_ok by lia. cbn [jbind]. rewrite <- Hm.
   assert (Hml : minus <= Ln s) by lia.
   rewrite rdin_ok by lia. cbn [jbind].
+  assert (Hvr : -65535 <= v <= 65535) by lia.
+  assert (Hexr : ex <= 65535) by lia.
+  clear Hrange Hmax Hmin Hes' Hapos Hv Hm Hlong Hap Hage Hes0 Hk Hk48 Hend.
   assert (HFl : Ln (sub s (o1 + 1) ex) = Z.max 0 (ex - (o1 + 1))).
   { destruct (Z_le_gt_dec ex (o1 + 1)) as [Hle|Hgt]; [rewrite sub_nil by lia; cbn [length]; lia|].
     rewrite sub_length by lia. lia. }
@@ -1644,3 +1647,377 @@ Proof.
     + reflexivity.
 Qed.
 
+(* ================= G. lyjson_number ================= *)
+Lemma all_init_map_Some (l : bytes) : all_init (map Some l) = true.
+Proof. induction l as [|c l IH]; cbn [map all_init forallb]; [reflexivity|exact IH]. Qed.
+
+Lemma cells_bytes_map_Some (l : bytes) : cells_bytes (map Some l) = l.
+Proof. unfold cells_bytes. rewrite map_map. apply map_id. Qed.
+
+Lemma same_value_zero e1 e2 : same_value (0, e1) (0, e2) = true.
+Proof. unfold same_value. rewrite !Z.mul_0_l. reflexivity. Qed.
+
+Lemma sgz_0 minus : sgz minus 0 = 0.
+Proof. unfold sgz. destruct (minus =? 1); reflexivity. Qed.
+
+(* ---------- the accepted text as lists ---------- *)
+Lemma sub_sign s minus :
+  minus = (if (bat s 0 =? 45)%N then 1 else 0) -> minus <= Ln s -> sub s 0 minus = sgnl minus.
+Proof.
+  intros Hm HL. destruct (bat s 0 =? 45)%N eqn:H45; subst minus.
+  - rewrite (sub_cons s 0 1) by lia. rewrite sub_nil by lia. unfold sgnl. cbn [Z.eqb Pos.eqb]. f_equal. lia.
+  - rewrite sub_nil by lia. reflexivity.
+Qed.
+
+Section Mantissa.
+  Variables (s : bytes) (minus o1 o2 : Z).
+  Hypothesis Hf : lexfacts s minus o1 o2.
+  Hypothesis HL : o2 <= Ln s.
+
+  Let I := sub s minus o1.
+  Let F := sub s (o1 + 1) o2.
+
+  Lemma mant_m01 : minus = 0 \/ minus = 1.
+  Proof. destruct Hf as (Hm & _). destruct (bat s 0 =? 45)%N; lia. Qed.
+
+  Lemma mant_order : 0 <= minus /\ minus < o1 /\ o1 <= o2.
+  Proof. pose proof mant_m01. destruct Hf as (Hm & Hlt & _ & _ & [(He & _)|(_ & Hl & _)]); lia. Qed.
+
+  Lemma mant_I : Forall isd I /\ I <> [].
+  Proof.
+    pose proof mant_order as Ho. destruct Hf as (Hm & Hlt & Hd & _). split.
+    - apply sub_Forall; [lia|lia|exact Hd].
+    - apply length_zero_nil. unfold I. rewrite sub_length by lia. lia.
+  Qed.
+
+  Lemma mant_F : Forall isd F.
+  Proof.
+    pose proof mant_order as Ho. destruct Hf as (_ & _ & _ & _ & [(He & _)|(_ & Hl & Hd)]).
+    - unfold F. rewrite sub_nil by lia. constructor.
+    - apply sub_Forall; [lia|lia|]. intros k Hk. apply Hd. lia.
+  Qed.
+
+  Lemma mant_text :
+    sub s 0 o2 = sgnl minus ++ I ++ (if o2 =? o1 then [] else 46%N :: F).
+  Proof.
+    pose proof mant_order as Ho. destruct Hf as (Hm & Hlt & _ & _ & Hfr).
+    rewrite (sub_app s 0 minus o2) by lia. rewrite (sub_sign s minus Hm) by lia. f_equal.
+    rewrite (sub_app s minus o1 o2) by lia. fold I. f_equal.
+    destruct Hfr as [(He & _)|(H46 & Hl & _)].
+    - replace (o2 =? o1) with true by lia. apply sub_nil. lia.
+    - replace (o2 =? o1) with false by lia. rewrite sub_cons by lia. rewrite H46. reflexivity.
+  Qed.
+
+  Lemma mant_denote :
+    dec_denote (sub s 0 o2) = Some (sgz minus (dval (I ++ F) 0), - Ln F).
+  Proof.
+    pose proof mant_order as Ho. pose proof mant_m01 as Hm01. destruct mant_I as (HId & HIne).
+    pose proof mant_F as HFd. rewrite mant_text. destruct Hf as (_ & _ & _ & _ & Hfr).
+    destruct Hfr as [(He & _)|(H46 & Hl & _)].
+    - replace (o2 =? o1) with true by lia. rewrite app_nil_r.
+      assert (HFn : F = []) by (apply sub_nil; lia). rewrite HFn, app_nil_r.
+      apply dec_denote_int; assumption.
+    - replace (o2 =? o1) with false by lia. apply dec_denote_frac; try assumption.
+      apply length_zero_nil. unfold F. rewrite sub_length by lia. lia.
+  Qed.
+
+  Lemma mant_noexp : Forall noexp (sub s 0 o2).
+  Proof.
+    pose proof mant_m01 as Hm01. destruct mant_I as (HId & _). pose proof mant_F as HFd.
+    assert (Hdn : forall l, Forall isd l -> Forall noexp l).
+    { intros l Hl. eapply Forall_impl; [|exact Hl]. intros c Hc. unfold isd, is_digit in Hc. unfold noexp. lia. }
+    rewrite mant_text. apply Forall_app. split.
+    - destruct Hm01 as [-> | ->]; [constructor|]. constructor; [unfold noexp; lia|constructor].
+    - apply Forall_app. split; [apply Hdn; exact HId|].
+      destruct (o2 =? o1); [constructor|]. constructor; [unfold noexp; lia|apply Hdn; exact HFd].
+  Qed.
+End Mantissa.
+
+Lemma json_text_noexp s minus o1 o2 :
+  lexfacts s minus o1 o2 -> o2 <= Ln s ->
+  json_denote (sub s 0 o2)
+  = Some (sgz minus (dval (sub s minus o1 ++ sub s (o1 + 1) o2) 0), - Ln (sub s (o1 + 1) o2)).
+Proof.
+  intros Hf HL. apply json_denote_noexp; [apply (mant_noexp s minus o1 o2 Hf HL)|apply mant_denote; assumption].
+Qed.
+
+Lemma json_text_exp s minus o1 o2 off :
+  lexfacts s minus o1 o2 -> o2 < Ln s -> bat s o2 = 101%N \/ bat s o2 = 69%N ->
+  exp_start s o2 < off -> off <= Ln s ->
+  (forall k, exp_start s o2 <= k < off -> is_digit (bat s k) = true) ->
+  json_denote (sub s 0 off)
+  = Some (sgz minus (dval (sub s minus o1 ++ sub s (o1 + 1) o2) 0),
+          - Ln (sub s (o1 + 1) o2) + exp_val s o2 off).
+Proof.
+  intros Hf HL Hce Hes HoffL Hed.
+  pose proof (mant_order s minus o1 o2 Hf) as Ho.
+  assert (Hes0 : o2 + 1 <= exp_start s o2 <= o2 + 2)
+    by (unfold exp_start; destruct ((bat s (o2 + 1) =? 43)%N || (bat s (o2 + 1) =? 45)%N); lia).
+  rewrite (sub_app s 0 o2 off) by lia. rewrite (sub_cons s o2 off) by lia.
+  assert (HDd : Forall isd (sub s (exp_start s o2) off)) by (apply sub_Forall; [lia|lia|exact Hed]).
+  assert (HDne : sub s (exp_start s o2) off <> []) by (apply length_zero_nil; rewrite sub_length by lia; lia).
+  assert (Hdn : forall l, Forall isd l -> Forall noexp l).
+  { intros l Hl. eapply Forall_impl; [|exact Hl]. intros c Hc. unfold isd, is_digit in Hc. unfold noexp. lia. }
+  apply (json_denote_exp _ _ _ _ _ (bat s (o2 + 1) =? 45)%N (sub s (exp_start s o2) off)).
+  - apply (mant_noexp s minus o1 o2 Hf). lia.
+  - rewrite (sub_cons s (o2 + 1) off) by lia. unfold exp_start in *.
+    destruct ((bat s (o2 + 1) =? 43)%N || (bat s (o2 + 1) =? 45)%N) eqn:Hsg.
+    + constructor; [unfold noexp; lia|]. replace (o2 + 1 + 1) with (o2 + 2) by lia. apply Hdn. exact HDd.
+    + rewrite <- (sub_cons s (o2 + 1) off) by lia. apply Hdn. exact HDd.
+  - destruct Hce as [-> | ->]; [left|right]; reflexivity.
+  - apply mant_denote; [exact Hf|lia].
+  - rewrite (sub_cons s (o2 + 1) off) by lia. unfold exp_sign_split, exp_start in *.
+    destruct (bat s (o2 + 1) =? 45)%N eqn:H45.
+    + cbn [orb] in *. rewrite orb_true_r in *. replace (o2 + 1 + 1) with (o2 + 2) by lia. reflexivity.
+    + destruct (bat s (o2 + 1) =? 43)%N eqn:H43; cbn [orb] in *.
+      * replace (o2 + 1 + 1) with (o2 + 2) by lia. reflexivity.
+      * rewrite <- (sub_cons s (o2 + 1) off) by lia. reflexivity.
+  - exact HDne.
+  - exact HDd.
+Qed.
+
+(* ---------- the four outcomes of lyjson_number ---------- *)
+Definition ngood (s : bytes) (r : jres numres) : Prop :=
+  match r with
+  | JOk r => (forall x, n_exp r = Some x ->
+                Z.of_nat (length (x_buf x)) = x_len x + 1 /\ 0 <= x_len x < 22 /\ x_end x = x_len x) /\
+             all_init (n_value r) = true /\ denotes_ok s r = true
+  | JErr e => e <> E_FUEL
+  | JOob => False
+  end.
+
+Lemma denotes_intro s r out a b :
+  n_value r = map Some out -> json_denote (firstn (Z.to_nat (n_consumed r)) s) = Some a ->
+  dec_denote out = Some b -> same_value a b = true ->
+  all_init (n_value r) = true /\ denotes_ok s r = true.
+Proof.
+  intros Hv Hj Hd Hs. unfold denotes_ok. rewrite Hv, all_init_map_Some, cells_bytes_map_Some, Hj, Hd.
+  split; [reflexivity|exact Hs].
+Qed.
+
+Lemma ngood_slice s n off a b :
+  json_denote (sub s 0 off) = Some a -> dec_denote (sub s 0 n) = Some b -> same_value a b = true ->
+  ngood s (JOk {| n_value := slice s 0 n; n_consumed := off; n_dynamic := false; n_exp := None |}).
+Proof.
+  intros Hj Hd Hs. cbn [ngood n_exp]. split; [intros x Hx; discriminate|].
+  apply (denotes_intro s _ (sub s 0 n) a b); cbn [n_value n_consumed].
+  - apply slice_sub.
+  - rewrite <- sub_firstn. exact Hj.
+  - exact Hd.
+  - exact Hs.
+Qed.
+
+Lemma dval_all_zero s a b :
+  0 <= a -> b <= Ln s -> (forall j, a <= j < b -> bat s j = 48%N) -> forall acc, dval (sub s a b) acc = acc * 10 ^ Z.of_nat (Z.to_nat (b - a)).
+Proof. intros Ha Hb Hall acc. rewrite (sub_repeat s a b 48%N Ha Hb Hall). apply dval_repeat0. Qed.
+
+Lemma nz_start_exp s ex : nz_start s (ex + 1) = exp_start s ex.
+Proof.
+  unfold nz_start, exp_start. destruct (bat s (ex + 1) =? 45)%N, (bat s (ex + 1) =? 43)%N; cbn [orb]; lia.
+Qed.
+
+Lemma number_post_good s lx : Ln s < 4294967296 -> lexok s lx -> ngood s (number_post s lx).
+Proof.
+  intros HL Hlx. destruct lx as [minus o1 o2 lexp off]. unfold lexok in Hlx.
+  cbn [l_minus l_o1 l_o2 l_exp l_off] in Hlx.
+  destruct Hlx as (Hf & Ho2 & HoffL & Hexp).
+  pose proof (mant_order s minus o1 o2 Hf) as Hord.
+  pose proof (mant_m01 s minus o1 o2 Hf) as Hm01.
+  pose proof Hf as (Hm & Hlt & Hdm & H48 & Hfrac).
+  unfold number_post. cbn [l_minus l_o1 l_o2 l_exp l_off].
+  assert (He : match lexp with Some e => e | None => off end = o2).
+  { destruct lexp as [ex|]; [destruct Hexp as (Hex & _); exact Hex|destruct Hexp as (Hex & _); exact Hex]. }
+  rewrite He.
+  assert (Hnz : nz_start s 0 = minus).
+  { unfold nz_start. destruct (bat s 0 =? 45)%N eqn:H45; cbn [orb]; [lia|].
+    destruct (bat s 0 =? 43)%N eqn:H43; [|lia]. exfalso.
+    specialize (Hdm minus ltac:(lia)). rewrite Hm in Hdm. unfold is_digit in Hdm. lia. }
+  (* the text that was accepted denotes (mv, me) *)
+  assert (Hjson : exists me, json_denote (sub s 0 off)
+                    = Some (sgz minus (dval (sub s minus o1 ++ sub s (o1 + 1) o2) 0), me) /\
+                    match lexp with
+                    | Some ex => me = - Ln (sub s (o1 + 1) o2) + exp_val s o2 off
+                    | None => me = - Ln (sub s (o1 + 1) o2)
+                    end).
+  { destruct lexp as [ex|].
+    - destruct Hexp as (Hex & Hce & Hes & Hed & Hend). subst ex.
+      assert (Hes0 : o2 + 1 <= exp_start s o2)
+        by (unfold exp_start; destruct ((bat s (o2 + 1) =? 43)%N || (bat s (o2 + 1) =? 45)%N); lia).
+      eexists. split; [apply json_text_exp; try assumption; lia|reflexivity].
+    - destruct Hexp as (Hoff & _). rewrite Hoff. eexists. split; [apply json_text_noexp; [exact Hf|lia]|reflexivity]. }
+  destruct Hjson as (me & Hjson & Hme).
+  destruct (number_is_zero_spec s 0 o2) as (z & Hz & Hzf & Hzt); [exact HL|lia|lia|lia|lia|].
+  rewrite Hz. cbn [jbind]. destruct z.
+  { (* the mantissa is zero: `0` or `-0` *)
+    destruct (Hzt eq_refl) as (Hz48 & Hzall). rewrite Hnz in Hz48, Hzall. specialize (H48 Hz48).
+    assert (Hmz : dval (sub s minus o1 ++ sub s (o1 + 1) o2) 0 = 0).
+    { rewrite dval_app. rewrite H48. rewrite (sub_one s minus) by lia. rewrite Hz48. cbn [dval].
+      change (10 * 0 + (Z.of_N 48 - 48)) with 0.
+      destruct Hfrac as [(Heq & Hn46)|(H46 & Hfl & Hfd)].
+      - rewrite sub_nil by lia. reflexivity.
+      - destruct Hzall as [(_ & Hall)|(Hc & _)]; [|rewrite <- H48 in Hc; contradiction].
+        rewrite dval_all_zero; [lia|lia|lia|]. intros j Hj. apply Hall. lia. }
+    rewrite Hmz, sgz_0 in Hjson.
+    apply (ngood_slice s (minus + 1) off (0, me) (sgz minus (dval [48%N] 0), 0)); [exact Hjson| |].
+    - rewrite (sub_app s 0 minus (minus + 1)) by lia. rewrite (sub_sign s minus Hm) by lia.
+      rewrite (sub_one s minus) by lia. rewrite Hz48.
+      apply dec_denote_int; [exact Hm01|discriminate|]. constructor; [reflexivity|constructor].
+    - cbn [dval]. change (10 * 0 + (Z.of_N 48 - 48)) with 0. rewrite sgz_0. apply same_value_zero. }
+  destruct (Hzf eq_refl) as (k & Hk & Hk48 & Hk2). rewrite Hnz in Hk, Hk2.
+  pose proof (mant_denote s minus o1 o2 Hf ltac:(lia)) as Hmant.
+  destruct lexp as [ex|].
+  - destruct Hexp as (Hex & Hce & Hes & Hed & Hend). subst ex.
+    assert (Hes0 : o2 + 1 <= exp_start s o2)
+      by (unfold exp_start; destruct ((bat s (o2 + 1) =? 43)%N || (bat s (o2 + 1) =? 45)%N); lia).
+    destruct (number_is_zero_spec s (o2 + 1) off) as (ze & Hze & Hzef & Hzet);
+      [exact HL|lia|lia|lia|rewrite nz_start_exp; lia|].
+    rewrite Hze. cbn [jbind]. destruct ze.
+    { (* the exponent is zero: the mantissa as it stands *)
+      destruct (Hzet eq_refl) as (Hz48 & Hzall). rewrite nz_start_exp in Hz48, Hzall.
+      assert (Hall : forall j, exp_start s o2 <= j < off -> bat s j = 48%N).
+      { destruct Hzall as [(H46 & _)|(_ & Hall)]; [|exact Hall].
+        intros j Hj. destruct (Z.eq_dec j (exp_start s o2)) as [->|Hne]; [exact Hz48|].
+        specialize (Hed (exp_start s o2 + 1) ltac:(lia)). rewrite H46 in Hed. discriminate. }
+      assert (Hev : exp_val s o2 off = 0).
+      { unfold exp_val. rewrite dval_all_zero; [|lia|lia|exact Hall]. destruct (bat s (o2 + 1) =? 45)%N; lia. }
+      rewrite Hme, Hev, Z.add_0_r in Hjson.
+      apply (ngood_slice s o2 off _ _ Hjson Hmant). apply same_value_refl. }
+    destruct (Hzef eq_refl) as (k2 & Hk2r & Hk248 & _). rewrite nz_start_exp in Hk2r.
+    assert (Hx : xgood (den minus (dval (sub s minus o1 ++ sub s (o1 + 1) o2) 0)
+                            (exp_val s o2 off - Ln (sub s (o1 + 1) o2))) (exp_number s o2 off)).
+    { apply (exp_number_good s o2 off minus o1); try assumption; try lia.
+      - exists k. split; [lia|]. split; [exact Hk48|exact Hk2].
+      - exists k2. split; [lia|exact Hk248]. }
+    destruct (exp_number s o2 off) as [x|e|]; cbn [xgood] in Hx; [|exact Hx|contradiction].
+    cbn [jbind ngood n_exp].
+    destruct Hx as (Hx1 & Hx2 & Hx3 & out & Hout & v & Hv & Hsv).
+    split; [intros x' Hx'; injection Hx' as <-; split; [exact Hx1|split; [exact Hx2|exact Hx3]]|].
+    eapply (denotes_intro s _ out _ v); cbn [n_value n_consumed].
+    + exact Hout.
+    + rewrite <- sub_firstn. exact Hjson.
+    + exact Hv.
+    + rewrite Hme. replace (- Ln (sub s (o1 + 1) o2) + exp_val s o2 off)
+        with (exp_val s o2 off - Ln (sub s (o1 + 1) o2)) by lia. exact Hsv.
+  - destruct Hexp as (Hoff & _). subst off. rewrite Hme in Hjson.
+    unfold LY_NUMBER_MAXLEN. destruct (22 <? o2); [cbn [ngood]; discriminate|].
+    apply (ngood_slice s o2 o2 _ _ Hjson Hmant). apply same_value_refl.
+Qed.
+
+Lemma number_good s : Ln s < 4294967296 -> ngood s (number s).
+Proof.
+  intro HL. unfold number. pose proof (lex_number_spec s) as Hlex.
+  destruct (lex_number s) as [lx|e|]; cbn [lgood] in Hlex; cbn [jbind].
+  - apply number_post_good; assumption.
+  - exact Hlex.
+  - contradiction.
+Qed.
+
+Lemma number_c_good s : Ln s < 4294967296 -> ngood (cstr s) (number_c s).
+Proof.
+  intro HL. unfold number_c. apply number_good. pose proof (cstr_length s). lia.
+Qed.
+
+(* every read is inside the text and its NUL, every store inside the block obtained from malloc(), no
+   assert() fires, the loops end within the fuel *)
+Theorem number_c_no_oob :
+  forall s : bytes, (Z.of_nat (length s) < 4294967296)%Z ->
+    number_c s <> JOob /\ number_c s <> JErr E_FUEL.
+Proof.
+  intros s HL. pose proof (number_c_good s HL) as Hg.
+  destruct (number_c s) as [r|e|]; cbn [ngood] in Hg.
+  - split; discriminate.
+  - split; [discriminate|]. intro Heq. injection Heq as ->. apply Hg. reflexivity.
+  - contradiction.
+Qed.
+
+(* the block has buf_len + 1 bytes, exactly buf_len bytes are stored before the NUL, and the value handed
+   on has no byte that was not written *)
+Theorem number_c_len_exact :
+  forall s : bytes, (Z.of_nat (length s) < 4294967296)%Z ->
+  forall r x, number_c s = JOk r -> n_exp r = Some x ->
+    Z.of_nat (length (x_buf x)) = x_len x + 1 /\ 0 <= x_len x < 22 /\ x_end x = x_len x /\
+    all_init (n_value r) = true.
+Proof.
+  intros s HL r x Hr Hx. pose proof (number_c_good s HL) as Hg. rewrite Hr in Hg.
+  cbn [ngood] in Hg. destruct Hg as (Hxp & Hinit & _). destruct (Hxp x Hx) as (H1 & H2 & H3).
+  split; [exact H1|]. split; [exact H2|]. split; [exact H3|exact Hinit].
+Qed.
+
+(* for every accepted text the decimal string produced denotes mantissa x 10^exponent *)
+Theorem number_c_denotes :
+  forall s : bytes, (Z.of_nat (length s) < 4294967296)%Z ->
+  forall r, number_c s = JOk r -> denotes_ok (cstr s) r = true.
+Proof.
+  intros s HL r Hr. pose proof (number_c_good s HL) as Hg. rewrite Hr in Hg.
+  cbn [ngood] in Hg. destruct Hg as (_ & _ & Hd). exact Hd.
+Qed.
+
+(* ================= H. regression witnesses, finite sweep ================= *)
+(* 0.5E1  0.55E1  0.055E2  0.0055E3  0.123456E3 : the inputs that layout 2 got wrong before /repo 63186d2 *)
+Definition w_05E1 : bytes := [48;46;53;69;49]%N.
+Definition w_055E1 : bytes := [48;46;53;53;69;49]%N.
+Definition w_0055E2 : bytes := [48;46;48;53;53;69;50]%N.
+Definition w_00055E3 : bytes := [48;46;48;48;53;53;69;51]%N.
+Definition w_0123456E3 : bytes := [48;46;49;50;51;52;53;54;69;51]%N.
+
+Definition value_of (s : bytes) : list cell :=
+  match number_c s with JOk r => n_value r | _ => [] end.
+Definition denotes_of (s : bytes) : bool :=
+  match number_c s with JOk r => denotes_ok (cstr s) r | _ => false end.
+
+Lemma former_witnesses :
+  value_of w_05E1 = [Some 53%N] /\
+  value_of w_055E1 = [Some 53%N; Some 46%N; Some 53%N] /\
+  value_of w_0055E2 = [Some 53%N; Some 46%N; Some 53%N] /\
+  value_of w_00055E3 = [Some 53%N; Some 46%N; Some 53%N] /\
+  value_of w_0123456E3 = [Some 49%N; Some 50%N; Some 51%N; Some 46%N; Some 52%N; Some 53%N; Some 54%N] /\
+  map denotes_of [w_05E1; w_055E1; w_0055E2; w_00055E3; w_0123456E3] = [true; true; true; true; true].
+Proof. vm_compute. repeat split. Qed.
+
+(* all strings of at most five characters over  0 1 5 - + . E e *)
+Definition sweep_alphabet : bytes := [48;49;53;45;43;46;69;101]%N.
+
+Fixpoint all_strs (n : nat) (f : bytes -> bool) : bool :=
+  f [] && match n with
+          | O => true
+          | S k => forallb (fun c => all_strs k (fun t => f (c :: t))) sweep_alphabet
+          end.
+
+Lemma all_strs_spec n : forall f, all_strs n f = true ->
+  forall t, (length t <= n)%nat -> Forall (fun c => In c sweep_alphabet) t -> f t = true.
+Proof.
+  induction n as [|n IH]; intros f H t Hl Hin; cbn [all_strs] in H; apply andb_true_iff in H;
+    destruct H as [H0 H].
+  - destruct t as [|c t]; [exact H0|]. cbn [length] in Hl. lia.
+  - destruct t as [|c t]; [exact H0|]. inversion Hin as [|c' t' Hc Ht]; subst c' t'.
+    rewrite forallb_forall in H. specialize (H c Hc).
+    apply (IH (fun t => f (c :: t)) H t); [cbn [length] in Hl; lia|exact Ht].
+Qed.
+
+Definition sweep_ok (s : bytes) : bool :=
+  match number_c s with
+  | JOk r => denotes_ok (cstr s) r
+  | _ => true
+  end.
+
+Lemma sweep_all : all_strs 5 sweep_ok = true.
+Proof. vm_cast_no_check (eq_refl true). Qed.
+
+(* the same statement as number_c_denotes on a finite set, by computation only: an independent check of
+   the proof above and of the specification side (json_denote, dec_denote, same_value) *)
+Lemma denotes_bounded :
+  forall s, (length s <= 5)%nat -> Forall (fun c => In c sweep_alphabet) s ->
+  forall r, number_c s = JOk r -> denotes_ok (cstr s) r = true.
+Proof.
+  intros s Hl Hin r Hr. pose proof (all_strs_spec 5 sweep_ok sweep_all s Hl Hin) as Hs.
+  unfold sweep_ok in Hs. rewrite Hr in Hs. exact Hs.
+Qed.
+
+(* the sweep meets every layout: 1E-1 (1), 0.1E1 (2), 15E-1 (3), 0.1E5 (4), 1E1 (5) *)
+Lemma sweep_layouts :
+  map (fun s => match number_c s with
+                | JOk r => match n_exp r with Some x => x_branch x | None => 0%N end
+                | _ => 0%N end)
+      [[49;69;45;49]; [48;46;49;69;49]; [49;53;69;45;49]; [48;46;49;69;53]; [49;69;49]]%N
+  = [1; 2; 3; 4; 5]%N.
+Proof. vm_compute. reflexivity. Qed.
